@@ -411,26 +411,32 @@ def compare(acc, w, model, ev, step, status, err, new, before_obs, seq):
     return None
 
 
-def replay_seq(w, seq):
-    """Re-run an already validated event sequence from the initial snapshot; returns the model."""
+def replay_seq(w, seq, report=None):
+    """Re-run an event sequence from the initial snapshot; returns the model.  Sequences taken from the
+    search have been validated already (a divergence is then a harness error); for fixed scenarios pass
+    `report` (an Acc): a violation on the way is reported there and None is returned."""
     w.restore(w.init)
     model = Model()
-    acc = par.Acc()
+    acc = par.Acc() if report is None else report
     for step, ev in enumerate(seq, 1):
         status, err, new = execute(w, ev, step)
         model = compare(acc, w, model, ev, step, status, err, new, None, seq[:step])
         if model is None:
+            if report is not None:
+                return None
             raise HarnessError("replay of validated prefix diverged: %r -> %r" % (seq, acc.violations[:1]))
     return model
 
 
-def _expand(chunk):
+def _expand(chunk, fixed=False):
     """For each state (event sequence) run every enabled event; -> (acc, [(seq, key)])"""
     acc = par.Acc()
     w = world()
     succ = []
     for seq, events in chunk:
-        model = replay_seq(w, seq)
+        model = replay_seq(w, seq, report=(acc if fixed else None))
+        if model is None:
+            continue
         snap = w.snapshot()
         step = len(seq) + 1
         for ev in events:
@@ -467,7 +473,9 @@ def _fault_work(chunk):
     acc = par.Acc()
     w = world()
     for seq in chunk:
-        model = replay_seq(w, seq)
+        model = replay_seq(w, seq, report=acc)
+        if model is None:
+            continue                      # the scenario's own prefix already violates the model (reported)
         if not (model.c[1]["bound"] and model.c[1]["tip"] == model.M):
             raise HarnessError("fault scenario is not an in-step bound checkout: %r" % (seq,))
         snap = w.snapshot()
@@ -549,8 +557,8 @@ def run(ctx):
     n2, layers2 = search(ctx, EVENTS2, d2, acc, "two-checkouts")
     n1, layers1 = search(ctx, EVENTS1, d1, acc, "one-checkout")
     # determinism audit
-    a1 = _expand([((("commitM",), ("local", 1)), EVENTS2)])
-    a2 = _expand([((("commitM",), ("local", 1)), EVENTS2)])
+    a1 = _expand([((("commitM",), ("local", 1)), EVENTS2)], fixed=True)
+    a2 = _expand([((("commitM",), ("local", 1)), EVENTS2)], fixed=True)
     if (a1.n, sorted(map(repr, a1.outcomes)), a1.succ) != (a2.n, sorted(map(repr, a2.outcomes)), a2.succ):
         raise HarnessError("non-deterministic transitions")
     facc = par.merge(par.pmap(_fault_work, FAULT_SCENARIOS, seed=ctx.seed, chunks_per_job=1))
